@@ -46,17 +46,18 @@ def build(tree, srcs, subdir, directives=None, global_options=None):
     return d, info
 
 
-def definitely_unbound_functions(errors_text, funcs, src):
-    """functions in which the compiler reports a *definitely* unbound read ("referenced before assignment", not
-    "might be"): these are compile errors in default mode"""
+def definitely_unbound_functions(msgs, funcs, src):
+    """functions in which the compiler reports a *definitely* unbound read/del ("referenced before assignment", not
+    "might be"; complete list from the in-compiler monitor): these are compile errors in default mode"""
     starts = []
     for i, ln in enumerate(src.splitlines(), 1):
         m = re.match(r'def (fz\d+z)\(', ln)
         if m:
             starts.append((i, m.group(1)))
     out = set()
-    for m in re.finditer(r':(\d+):\d+: local variable \'(\w+)\' referenced before assignment', errors_text):
-        line = int(m.group(1))
+    for line, var, kind, level in msgs:
+        if kind != 'definite':
+            continue
         owner = None
         for s, name in starts:
             if s <= line:
@@ -109,10 +110,15 @@ def cpython_found_unbound_first(exp, got):
     while i < len(le) and i < len(lg) and le[i] == lg[i]:
         i += 1
     if i == len(le):
-        # CPython's log ends here: it must have raised the unbound error at this point
-        return exp[0] == 'exc' and exp[1] in ('UnboundLocalError', 'NameError') and (len(lg) > i or got[0] == 'ok' or got[:2] != exp[:2])
+        # CPython's log ends here: it must have raised the unbound error at this point (an unguarded read)
+        ok = exp[0] == 'exc' and exp[1] in ('UnboundLocalError', 'NameError') and (len(lg) > i or got[0] == 'ok' or got[:2] != exp[:2])
+        return 'read' if ok else None
     e = le[i]
-    return e[0] == 'tuple' and e[1] and e[1][0] in (['str', "'unb'"], ['str', "'del'"])
+    if e[0] == 'tuple' and e[1] and e[1][0] == ['str', "'unb'"]:
+        return 'read'
+    if e[0] == 'tuple' and e[1] and e[1][0] == ['str', "'del'"]:
+        return 'del'
+    return None
 
 
 def outcome_class(o):
@@ -122,8 +128,8 @@ def outcome_class(o):
 def main(ck):
     tree = cy.Tree('C21')
     rng = ck.rng('flow')
-    nfuncs = ck.pick(300, 3000)
-    per_mod = ck.pick(75, 150)
+    nfuncs = ck.pick(200, 3000)
+    per_mod = ck.pick(50, 150)
     mods = {}
     fmap = {}
     stats = {'calls': 0, 'calls_raising_nameerror': 0, 'reads': 0, 'unbound_reads': 0}
@@ -143,13 +149,11 @@ def main(ck):
     # ---------------------------------------------------------------- builds
     lenient_srcs = {n: s for n, (s, _) in mods.items()}
     dl, il = build(tree, lenient_srcs, 'lenient', global_options={'error_on_uninitialized': False})
-    dn, inn = build(tree, lenient_srcs, 'noinfer', directives={'infer_types': False},
-                    global_options={'error_on_uninitialized': False})
     excluded = set()
     default_srcs = {}
     default_funcs = {}
     for n, (s, funcs) in mods.items():
-        bad = definitely_unbound_functions(il[n]['errors'], funcs, s)
+        bad = definitely_unbound_functions(il[n]['plugin'].get('unbound_msgs', []), funcs, s)
         excluded |= bad
         keep = [f for f in funcs if f['name'] not in bad]
         default_funcs[n] = keep
@@ -158,7 +162,8 @@ def main(ck):
     skipped = 0
     inferred = []
     names = {}
-    for cfg, info in (('lenient', il), ('noinfer', inn), ('default', idf)):
+    ck.cov['build_wall_s'] = round(ck.elapsed(), 1)
+    for cfg, info in (('lenient', il), ('default', idf)):
         for n, inf in info.items():
             if not inf['ok']:
                 skipped += 1
@@ -192,13 +197,22 @@ def main(ck):
             # ablation: the same cases on the infer_types=False build of the same source
             abl = {}
             mis_cases = [m['case'] for m in res.mismatches] + [c['case'] for c in res.crashes if not c['kind'].startswith('HANG')]
-            if mis_cases and inn[n]['ok']:
-                r2 = diff.run_cases(tree, dn, n, mis_cases, ref=inn[n]['src'], compare=COMPARE,
-                                    tagdir='abl_%s_%s' % (cfg, n), timeout=3600, nproc=2)
-                bad2 = {(m['case']['f'], m['case']['a']) for m in r2.mismatches} | \
-                       {(c['case']['f'], c['case']['a']) for c in r2.crashes}
-                for c in mis_cases:
-                    abl[(c['f'], c['a'])] = 'same' if (c['f'], c['a']) in bad2 else 'gone'
+            if mis_cases:
+                # ablation build: only the functions that showed a discrepancy, compiled with infer_types=False
+                names_mis = sorted({c['f'] for c in mis_cases}, key=lambda x: int(x[2:-1]))
+                an = 'abl_%s_%s' % (cfg, n)
+                asrc = flowgen.module_source([fmap[x][1] for x in names_mis])
+                da, ia = build(tree, {an: asrc}, an, directives={'infer_types': False},
+                               global_options={'error_on_uninitialized': False})
+                if ia[an]['ok']:
+                    r2 = diff.run_cases(tree, da, an, mis_cases, ref=ia[an]['src'], compare=COMPARE,
+                                        tagdir='ablrun_%s_%s' % (cfg, n), timeout=3600, nproc=2)
+                    bad2 = {(m['case']['f'], m['case']['a']) for m in r2.mismatches} | \
+                           {(c['case']['f'], c['case']['a']) for c in r2.crashes}
+                    for c in mis_cases:
+                        abl[(c['f'], c['a'])] = 'same' if (c['f'], c['a']) in bad2 else 'gone'
+                else:
+                    ck.note('ablation build failed for %s/%s: %s' % (cfg, n, ia[an]['errors'][-400:]))
             for m in res.mismatches:
                 nmis[cfg] += 1
                 f = fmap[m['case']['f']][1]
@@ -206,10 +220,15 @@ def main(ck):
                 ablation_gone += a == 'gone'
                 ablation_same += a == 'same'
                 ec, gc = outcome_class(m['exp']), outcome_class(m['got'])
-                if a == 'gone' and cpython_found_unbound_first(m['exp'], m['got']):
+                first = cpython_found_unbound_first(m['exp'], m['got'])
+                if a == 'gone' and first:
                     # CPython found a variable unbound (raised, or logged it through a guarded read); the compiled
                     # function went on with a value; goes away without type inference
                     key = 'unbound-read-of-C-inferred-local'
+                elif first == 'del' and cfg == 'lenient' and f['name'] in excluded:
+                    # CPython raised at a `del v` that the compiler knows to be definitely unbound (the function is a
+                    # compile error in default mode); lenient mode generates no code at all for that del
+                    key = 'del-of-definitely-unbound-local-is-noop'
                 else:
                     key = 'unbound:%s->%s:ablation-%s' % (ec, gc, a)
                 ck.discrepancy(key, '%s(%s) [%s mode]: CPython %s, compiled %s; with infer_types=False the discrepancy is %s'
